@@ -187,6 +187,40 @@ def check_otsu_total(ctx: Ctx):
                f"`{U(bad[0])[:60] if bad else ''}` raises ValueError('All-NaN slice encountered') for a constant image, where every between-class variance is 0·NaN: locate_droplets(..., threshold='otsu') aborts on a valid field")
 
 
+def check_threshold_usage(ctx: Ctx):
+    """The threshold option is `float | "auto" | "extrema" | "mean" | "otsu"`: outside locate_droplets' own dispatch (which
+    converts it) it may only be stored and forwarded.  Comparing it with field values or doing arithmetic on it raises
+    (numpy UFuncTypeError / TypeError) as soon as a rule name is configured."""
+    m = ctx.model
+    n = 0
+    for fi in m.all_functions():
+        if fi.module.name not in ("droplets.trackers", "droplets.emulsions", "droplets.droplet_tracks"):
+            continue
+        fv = view(m, fi)
+        si = stmt_index(fv)
+        uses = [x for x in ast.walk(fi.node) if isinstance(x, ast.Attribute) and x.attr == "threshold" and isinstance(x.value, ast.Name) and x.value.id == "self" and isinstance(x.ctx, ast.Load)]
+        uses += [x for x in ast.walk(fi.node) if isinstance(x, ast.Name) and x.id == "threshold" and isinstance(x.ctx, ast.Load) and "threshold" in fi.all_params]
+        if not uses:
+            continue
+        par = {}
+        for p_ in ast.walk(fi.node):
+            for ch in ast.iter_child_nodes(p_):
+                par[id(ch)] = p_
+        bad = None
+        for u in uses:
+            p_ = par.get(id(u))
+            if isinstance(p_, (ast.Compare, ast.BinOp, ast.UnaryOp)) and not (isinstance(p_, ast.Compare) and all(isinstance(o, (ast.Is, ast.IsNot, ast.Eq, ast.NotEq, ast.In, ast.NotIn)) for o in p_.ops)):
+                st_ = si.statement(u)
+                guarded = st_ is not None and any("isinstance" in U(t_) and "threshold" in U(t_) for t_, _p in si.effective_guards(st_))
+                if not guarded:
+                    bad = (u, p_)
+        n += 1
+        ctx.decide(bad is None, "TOTAL", f"{fi.qualname}:threshold", (fi, bad[1]) if bad else fi, "the threshold option is only stored and forwarded",
+                   f"`{U(bad[1])[:70] if bad else ''}` orders/combines the threshold option with numbers: the option may be a rule name ('auto', 'extrema', 'mean', 'otsu'), for which this "
+                   "raises inside the tracker callback and aborts the simulation")
+    return n
+
+
 def check(ctx: Ctx):
     ctx.explain(
         "EMPTY typestate rules at every ndimage.label caller, at filtered index lists and at the cdist call of the distance matcher; "
@@ -212,8 +246,27 @@ def check(ctx: Ctx):
     check_grid_dispatch(ctx)
     check_threshold_dispatch(ctx)
     refine.check_pack(ctx, rules=("PACK", "FEASIBLE", "STRICT"))
+    # the fit starts from the candidate's own parameters: every valid parameter value (radius 0, interface width 0, amplitudes
+    # in [-1, 1]) must lie inside the bounds table, otherwise least_squares raises `Initial guess is outside of provided bounds`
+    refine.check_bounds_layout(ctx)
+    ctx.expect("LAYOUT", 6)
     check_signal(ctx)
+    # the documented error for perturbation modes (only 2d/3d) is decided on the *space* dimension: symmetric grids have fewer
+    # axes than dimensions, so a test on the number of axes raises for valid requests (modes > 0 on polar/spherical/cylindrical grids)
+    ld = ctx.model.func(f"{IMG}.locate_droplets")
+    ldv = view(ctx.model, ld)
+    guards_dim = [s_ for s_ in ldv.statements() if isinstance(s_, ast.If) and s_.body and isinstance(s_.body[0], ast.Raise) and "modes" in names_in(s_.test)]
+    okd = False
+    where_ = ld
+    if len(guards_dim) == 1:
+        t_ = ldv.expand(guards_dim[0].test, guards_dim[0], stop=(ld.params[0], "modes"))
+        where_ = (ld, guards_dim[0])
+        okd = f"{ld.params[0]}.grid.dim" in U(t_) and "num_axes" not in U(t_) and "ndim" not in U(t_) and "len(" not in U(t_)
+    ctx.decide(okd, "EXHAUST", ld.qualname + ":modes-dim", where_, "the modes/dimension validity test reads the grid's space dimension (grid.dim)",
+               f"the validity test for perturbation modes is `{U(ldv.expand(guards_dim[0].test, guards_dim[0], stop=(ld.params[0], 'modes')))[:80] if guards_dim else '?'}`: it must be decided on the space dimension "
+               "phase_field.grid.dim; on symmetric grids (fewer axes than dimensions) another quantity raises the documented error for valid requests or builds droplets of the wrong dimension")
     check_otsu_total(ctx)
+    check_threshold_usage(ctx)
     from . import c07
 
     # METRIC: points are Cartesian; grid.distance must be told so (non-Cartesian grids raise otherwise)
@@ -223,12 +276,12 @@ def check(ctx: Ctx):
     ctx.functions |= sub.functions
     ctx.expect("METRIC", 2)
     ctx.expect("WIDTH", 4)
-    ctx.expect("TOTAL", 1)
+    ctx.expect("TOTAL", 3)
     ctx.expect("EMPTY", 9)
     ctx.expect("ARITY", 3)
     ctx.expect("DIV0", 1)
     ctx.expect("DIMGUARD", 3)
-    ctx.expect("EXHAUST", 7)
+    ctx.expect("EXHAUST", 8)
     ctx.expect("FEASIBLE", 2)
     ctx.expect("SIGNAL", 3)
     ctx.trust("scipy.ndimage.center_of_mass / cdist / argmin raise on empty operands", "least_squares raises for an infeasible start vector")
